@@ -848,6 +848,40 @@ Proof.
   destruct (scale_diff_zero q r x' x Hp A); contradiction.
 Qed.
 
+(* --- Equal on keys is equality of the components --- *)
+Theorem ped_key_eq_iff q a b :
+  ped_key_eqb q a b = true <->
+  lf_norm q (pk_g a) = lf_norm q (pk_g b) /\ lf_norm q (pk_h a) = lf_norm q (pk_h b).
+Proof. unfold ped_key_eqb. rewrite andb_true_iff, !lf_eqb_spec. tauto. Qed.
+
+Theorem ped_tkey_eq_iff q a b :
+  ped_tkey_eqb q a b = true <->
+  lf_norm q (tk_g a) = lf_norm q (tk_g b) /\ tk_lambda a mod q = tk_lambda b mod q.
+Proof. unfold ped_tkey_eqb. rewrite andb_true_iff, lf_eqb_spec, Z.eqb_eq. tauto. Qed.
+
+Theorem int_key_eq_iff a b : int_key_eqb a b = true <-> a = b.
+Proof.
+  destruct a as [n1 s1 t1], b as [n2 s2 t2]. unfold int_key_eqb. cbn [ik_n ik_s ik_t].
+  rewrite !andb_true_iff, !Z.eqb_eq. split; [intros [[-> ->] ->]; reflexivity|intros E; injection E; auto].
+Qed.
+
+Theorem int_tkey_eq_iff a b : int_tkey_eqb a b = true <-> a = b.
+Proof.
+  destruct a as [n1 t1 l1 o1], b as [n2 t2 l2 o2]. unfold int_tkey_eqb. cbn [itk_n itk_t itk_lambda itk_ord].
+  rewrite !andb_true_iff, !Z.eqb_eq. split; [intros [[[-> ->] ->] ->]; reflexivity|intros E; injection E; auto].
+Qed.
+
+(* different keys (one generator changed) are never Equal, and for canonical keys
+   Equal is Leibniz equality *)
+Corollary ped_key_eq_canonical q a b :
+  lf_norm q (pk_g a) = pk_g a -> lf_norm q (pk_h a) = pk_h a ->
+  lf_norm q (pk_g b) = pk_g b -> lf_norm q (pk_h b) = pk_h b ->
+  (ped_key_eqb q a b = true <-> a = b).
+Proof.
+  intros A1 A2 B1 B2. rewrite ped_key_eq_iff, A1, A2, B1, B2. destruct a as [ga ha], b as [gb hb]; cbn [pk_g pk_h].
+  split; [intros [-> ->]; reflexivity|intros E; injection E; auto].
+Qed.
+
 (* ===================================================================== *)
 (* keys extracted from transcripts                                        *)
 (* ===================================================================== *)
